@@ -156,7 +156,7 @@ class DiabaticModel_(ElectronicModel_):
         - def V(self, X: ArrayLike) -> ArrayLike
           V(x) should return an ndarray of shape (nstates, nstates)
         - def dV(self, X: ArrayLike) -> ArrayLike
-          dV(x) shoudl return an ndarry of shape (nstates, nstates, ndim)
+          dV(x) shoudl return an ndarry of shape (ndim, nstates, nstates)
     '''
 
     def __init__(self, representation: str = "adiabatic", reference: Any = None,
